@@ -203,9 +203,21 @@ def M_res_into_iter(it, ctx, args, st):
 
 
 def M_from_str_trait(it, ctx, args, st):
-    """<T as FromStr>::from_str(s)  ==  s.parse::<T>()"""
-    ctx2 = type('C', (), {'gargs': [ctx.self_ty], 'fr': ctx.fr, 'callee': ctx.callee})()
-    yield from M_str_parse(it, ctx2, args, st)
+    """<T as FromStr>::from_str(s)  ==  s.parse::<T>(): routed through the `str::parse::<T>` callee so that a check's own model of
+    the parser (floats, bools) applies to both spellings"""
+    T = ctx.self_ty
+    if T[0] == 'path' and T[1] in INT_BITS:
+        ctx2 = type('C', (), {'gargs': [T], 'fr': ctx.fr, 'callee': ctx.callee})()
+        yield from M_str_parse(it, ctx2, args, st)
+        return
+    key = f'core::str::<impl str>::parse::<{ty_str(T)}>'
+    for pat, fn, guard in it.models:
+        if fn is not M_str_parse and pat.fullmatch(key):
+            c = it.parse_callee(key)
+            from .interp import CallCtx
+            yield from fn(it, CallCtx(it, ctx.fr, c, None), args, st)
+            return
+    raise Unsupported(f'<{ty_str(T)} as FromStr>::from_str: no model of the parser')
 
 
 def M_str_starts_with_str(it, ctx, args, st):
@@ -243,6 +255,34 @@ def M_for_each(it, ctx, args, st):
                 else:
                     yield from go(s3, i2)
     yield from go(st, itv)
+
+
+def M_partition(it, ctx, args, st):
+    """Iterator::partition::<B, F>: items for which the predicate holds go to the first collection, the others to the second
+    (B: Vec -> sequence; HashMap / BTreeMap -> association list of the (key, value) items, in insertion order)"""
+    B = ctx.gargs[0]
+    bname = B[1] if B[0] == 'path' else ''
+    for s2, items in drain(it, st, as_iter(it, st, args[0]), ctx.fr):
+        if is_abnormal(items):
+            yield s2, items
+            continue
+
+        def mk(xs):
+            if last_seg(bname) in ('HashMap', 'BTreeMap'):
+                return Agg('std::collections::' + last_seg(bname), (tuple((x.fields[0], x.fields[1]) for x in xs),))
+            return Seq(tuple(xs))
+
+        def go(st, k, left, right):
+            if k == len(items):
+                yield st, Agg('tuple', (mk(left), mk(right)))
+                return
+            for s3, r in it.call_closure(args[1], [st.ref(items[k])], st, ctx.fr):
+                if is_abnormal(r):
+                    yield s3, r
+                    continue
+                for s4, yes in fork_bool(it, s3, r):
+                    yield from go(s4, k + 1, left + [items[k]] if yes else left, right if yes else right + [items[k]])
+        yield from go(s2, 0, [], [])
 
 
 def M_rposition(it, ctx, args, st):
@@ -1371,10 +1411,49 @@ def M_vec_is_empty(it, ctx, args, st):
     yield st, (v.len == 0 if isinstance(v, BStr) else z3.BoolVal(len(v.items) == 0))
 
 
+def bm_append(st, p, add):
+    """append to a byte buffer (BytesMut, Vec<u8>, String), remembering (ghost state) the pieces it was assembled from"""
+    cur = sval(st, p)
+    new = bstr_concat(cur, add)
+    log = st.aux.get('bm_log', ())
+    prev = next((pcs for obj, pcs in log if obj is cur), None)
+    if prev is None:
+        prev = () if bstr_py(cur) == b'' else (cur,)
+    st.aux['bm_log'] = log[-3:] + ((new, prev + (add,)),)
+    tgt = p
+    while isinstance(st.deref(tgt), Ptr):
+        tgt = st.deref(tgt)
+    st.write(tgt, new)
+
+
 def M_vec_push(it, ctx, args, st):
     p = args[0]
     v = st.deref(p)
+    while isinstance(v, Ptr):
+        p, v = v, st.deref(v)
+    t = ctx.targs[0] if ctx.targs else None
+    if isinstance(v, BStr) or (t is not None and t[0] == 'path' and t[1] == 'u8'):
+        if not isinstance(v, BStr):
+            st.write(p, bstr(b''))
+        bm_append(st, p, BStr((args[1],), bv(1)))
+        yield st, UNIT
+        return
     st.write(p, Seq(v.items + (args[1],)))
+    yield st, UNIT
+
+
+def M_vec_extend_from_slice(it, ctx, args, st):
+    p = args[0]
+    v = st.deref(p)
+    while isinstance(v, Ptr):
+        p, v = v, st.deref(v)
+    add = st.deref_all(args[1])
+    if isinstance(add, BStr):
+        if not isinstance(v, BStr):
+            st.write(p, bstr(b''))
+        bm_append(st, p, add)
+    else:
+        st.write(p, Seq(v.items + tuple(add.items)))
     yield st, UNIT
 
 
@@ -1396,6 +1475,24 @@ def M_refcell_borrow(it, ctx, args, st):
 def M_guard_deref(it, ctx, args, st):
     g = st.deref(args[0])
     yield st, g.fields[0]
+
+
+def M_refcell_replace(it, ctx, args, st):
+    """RefCell::replace(&self, v) -> old value;  RefCell::take / set likewise (borrow flags are not modelled)"""
+    cell = Ptr(args[0].addr, args[0].proj + (('f', 0),))
+    old = st.deref(cell)
+    st.write(cell, args[1])
+    yield st, old
+
+
+def M_strip_prefix_char(it, ctx, args, st):
+    s = sval(st, args[0])
+    ch = concrete(args[1])
+    if ch is None or ch >= 128:
+        raise Unsupported('strip_prefix with a symbolic / non-ASCII char')
+    has = z3.And(s.len != 0, (s.bytes[0] == ch) if s.bytes else z3.BoolVal(False))
+    for s2, hit in fork_bool(it, st, has):
+        yield s2, (it.some(s2.ref(bstr_slice(s, bv(1), s.len))) if hit else it.none)
 
 
 def M_refcell_new(it, ctx, args, st):
@@ -1769,6 +1866,7 @@ MODELS = [
     (r'<' + P + r'(?:result::Result|option::Option)<.*> as ' + P + r'iter::IntoIterator>::into_iter', M_res_into_iter, lambda it, ctx, args, st: isinstance(args[0], Enum)),
     (r'<(?:[iu](?:8|16|32|64|128|size)|f64|f32|bool) as ' + P + r'str::FromStr>::from_str', M_from_str_trait),
     (P + r'str::<impl str>::starts_with::<&str>', M_str_starts_with_str), (P + r'str::<impl str>::ends_with::<&str>', M_str_ends_with_str),
+    (ITER + r'partition::<.*>', M_partition),
     (ITER + r'for_each::<.*>', M_for_each), (ITER + r'rposition::<.*>', M_rposition),
     (r'<' + P + r'cmp::Ordering as ' + P + r'cmp::PartialEq>::(eq|ne)', M_ordering_eq),
     (P + r'string::String::with_capacity|' + P + r'string::String::new', M_string_with_capacity), (P + r'string::String::push_str', M_string_push_str),
@@ -1827,10 +1925,10 @@ MODELS = [
     (P + r'slice::<impl \[.*\]>::len', M_vec_len), (P + r'slice::<impl \[.*\]>::is_empty', M_vec_is_empty),
     (P + r'slice::<impl \[.*\]>::contains', M_slice_contains),
     (P + r'collections::BTreeSet::<.*>::iter', M_slice_iter), (P + r'collections::HashMap::<.*>::values', M_slice_iter),
-    (P + r'vec::Vec::<.*>::(?:new|with_capacity)', M_vec_new), (P + r'vec::Vec::<.*>::len', M_vec_len), (P + r'vec::Vec::<.*>::is_empty', M_vec_is_empty),
+    (P + r'vec::Vec::<.*>::(?:new|with_capacity)', M_vec_new), (P + r'vec::Vec::<.*>::extend_from_slice', M_vec_extend_from_slice), (P + r'vec::Vec::<.*>::len', M_vec_len), (P + r'vec::Vec::<.*>::is_empty', M_vec_is_empty),
     (P + r'vec::Vec::<.*>::push', M_vec_push),
     (r'<' + P + r'vec::Vec<.*> as ' + P + r'ops::Deref(Mut)?>::deref(_mut)?', M_vec_deref),
-    (P + r'cell::RefCell::<.*>::borrow(_mut)?', M_refcell_borrow), (P + r'cell::RefCell::<.*>::new', M_refcell_new),
+    (P + r'cell::RefCell::<.*>::borrow(_mut)?', M_refcell_borrow), (P + r'cell::RefCell::<.*>::new', M_refcell_new), (P + r'cell::RefCell::<.*>::replace', M_refcell_replace), (P + r'str::<impl str>::strip_prefix::<char>', M_strip_prefix_char),
     (r'<' + P + r'cell::Ref(Mut)?<.*> as ' + P + r'ops::Deref(Mut)?>::deref(_mut)?', M_guard_deref),
     (P + r'boxed::Box::<.*>::new_uninit', M_box_new_uninit), (P + r'boxed::box_assume_init_into_vec_unsafe::<.*>', M_box_assume_init_into_vec),
     (P + r'boxed::Box::<.*>::new', M_box_new), (P + r'sync::Arc::<.*>::new', M_arc_new),
